@@ -310,37 +310,44 @@ def c03_ignore_census(sel: int, form: int, boost: int) -> bool:
     return ok
 
 
-def c03_same_name_templates(layout: int, order: int, boost: int) -> bool:
+def same_name_registered(layout, order, boost, where=0):
+    """problems of the pybind registration of two same-named templates' typedef'd instantiations (c08_product.build_same_name)"""
+    from harness import c08_product as P
+    text, want = P.build_same_name(layout, order, where=where)
+    problems = []
+    try:
+        ents = readers.parse_pybind(pipe.pybind_body(text, boost=bool(boost)))
+    except Exception as ex:
+        ents = []
+        problems.append("raised %r" % ex)
+    classes = [e for e in ents if e["ent"] == "class"]
+    if not problems and sorted(e["name"] for e in classes) != sorted(want):
+        problems.append("classes registered %r, declared %r" % ([e["name"] for e in classes], sorted(want)))
+    for e in classes:
+        w = want.get(e["name"])
+        if w is None:
+            continue
+        defs = [d.get("name") for d in e["defs"] if d["kind"] in ("def", "def_static") and not str(d.get("name", "")).startswith("__") and d.get("name") not in ("serialize", "deserialize")]
+        extra = ["Count"] if e["name"] == "BoxB" else []
+        if e["targs"][0] != w[0] or sorted(defs) != sorted(w[1] + extra):
+            problems.append("%s registered as %s with %r, its typedef names %s with %r" % (e["name"], e["targs"][0], defs, w[0], w[1] + extra))
+    return text, problems
+
+
+def c03_same_name_templates(layout: int, order: int, boost: int, where: int) -> bool:
     """
-    Two same-named class templates in different namespaces, each with a typedef'd instantiation (typedefs in one block):
-    the module registers exactly two classes, `BoxA` bound to the first template's C++ type with its members and
-    `BoxB` to the second's, each once.
-    pre: 0 <= layout < 5 and 0 <= order <= 1 and 0 <= boost <= 1
+    Two same-named class templates in different namespaces, each with a typedef'd instantiation (typedefs in one block,
+    at global scope or inside a namespace from which one root-qualified name could also be read relatively): the module
+    registers exactly two classes, `BoxA` bound to the first template's C++ type with its members and `BoxB` to the
+    second's, each once.
+    pre: 0 <= layout < 5 and 0 <= order <= 1 and 0 <= boost <= 1 and 0 <= where <= 2
     post: _
     """
-    from harness import c08_product as P
-    layout, order, boost = pick(layout, 0, len(P.SAME_LAYOUTS)), pick(order, 0, 2), pick(boost, 0, 2)
+    layout, order, boost, where = pick(layout, 0, 5), pick(order, 0, 2), pick(boost, 0, 2), pick(where, 0, 3)
     with concrete():
-        text, want = P.build_same_name(layout, order)
-        problems = []
-        try:
-            ents = readers.parse_pybind(pipe.pybind_body(text, boost=bool(boost)))
-        except Exception as ex:
-            ents = []
-            problems.append("raised %r" % ex)
-        classes = [e for e in ents if e["ent"] == "class"]
-        if not problems and sorted(e["name"] for e in classes) != sorted(want):
-            problems.append("classes registered %r, declared %r" % ([e["name"] for e in classes], sorted(want)))
-        for e in classes:
-            w = want.get(e["name"])
-            if w is None:
-                continue
-            defs = [d.get("name") for d in e["defs"] if d["kind"] in ("def", "def_static") and not str(d.get("name", "")).startswith("__") and d.get("name") not in ("serialize", "deserialize")]
-            extra = ["Count"] if e["name"] == "BoxB" else []
-            if e["targs"][0] != w[0] or sorted(defs) != sorted(w[1] + extra):
-                problems.append("%s registered as %s with %r, its typedef names %s with %r" % (e["name"], e["targs"][0], defs, w[0], w[1] + extra))
+        text, problems = same_name_registered(layout, order, boost, where)
         ok = not problems or _fail(text=text, problems=problems)
-    reached({"layout": layout, "order": order})
+    reached({"layout": layout, "order": order, "where": where})
     return ok
 
 
@@ -351,8 +358,8 @@ def conds(tier):
         " x third level x re-opened (serialization derived)" if not q else "; third level / re-open / hollow / serialization derived")
     return [xh.Cond("harness.c03_census", "c03_script_ignore", t(200, 600), kind="shape-bounded", examples=["top=1, ign=4, boost=0", "top=0, ign=0, boost=1"],
                     bounds="5 --top_module_namespaces values x 5 --ignore forms x serialization"),
-            xh.Cond("harness.c03_census", "c03_same_name_templates", t(120, 600), kind="shape-bounded", examples=["layout=0, order=0, boost=0", "layout=2, order=1, boost=1", "layout=1, order=0, boost=0"],
-                    bounds="5 namespace layouts x 2 typedef orders x serialization"),
+            xh.Cond("harness.c03_census", "c03_same_name_templates", t(120, 600), kind="shape-bounded", examples=["layout=0, order=0, boost=0, where=0", "layout=2, order=1, boost=1, where=1", "layout=1, order=0, boost=0, where=2"],
+                    bounds="5 namespace layouts x 2 typedef orders x serialization x 3 places of the typedef block"),
             xh.Cond("harness.c03_census", "c03_ignore_census", t(300, 1200), kind="shape-bounded", examples=["sel=8, form=0, boost=0", "sel=8, form=1, boost=0", "sel=48, form=2, boost=1", "sel=127, form=0, boost=0", "sel=0, form=0, boost=1"],
                     bounds="all 128 subsets of 7 classes on the ignore list x %s" % ("3 spellings x serialization" if not q else "spelling and serialization derived"))] + [
         xh.Cond("harness.c03_census", f, t(420, 3600), kind="shape-bounded", path_timeout=90, examples=ex, bounds=b)
